@@ -232,6 +232,32 @@ Cascade(g, x, ts) ==
   [out |-> {IF e.d = 0 /\ (e.s = x \/ e.t = x) THEN [e EXCEPT !.d = ts] ELSE e : e \in g.out},
    in  |-> {IF e.d = 0 /\ (e.s = x \/ e.t = x) THEN [e EXCEPT !.d = ts] ELSE e : e \in g.in}]
 
+\* Replay variants (core.DB.ReplayAddEdge / ReplayRemoveEdge): a journaled record whose effect the store already
+\* shows -- the store was loaded from an image NEWER than the record (crash between the snapshot rename and the
+\* log truncation) -- is recognised by its timestamp and skipped; a hard removal spares versions created later.
+VersOf(g, s, t, r) == {e \in g.out : e.s = s /\ e.t = t /\ e.r = r}
+LatestStamp(g, s, t, r) ==
+  LET st == {e.c : e \in VersOf(g, s, t, r)} \cup {e.d : e \in VersOf(g, s, t, r)} IN
+  IF st = {} THEN 0 ELSE CHOOSE m \in st : \A x \in st : x <= m
+RAddEdge(g, s, t, r, w, p, ts) ==
+  IF LatestStamp(g, s, t, r) > ts \/ (\E e \in VersOf(g, s, t, r) : e.c = ts) THEN g ELSE AddEdge(g, s, t, r, w, p, ts)
+RRemoveEdge(g, s, t, r, hard, ts) ==
+  IF hard
+  THEN [out |-> {e \in g.out : ~(e.s = s /\ e.t = t /\ e.r = r) \/ e.c > ts},
+        in  |-> {e \in g.in  : ~(e.s = s /\ e.t = t /\ e.r = r) \/ e.c > ts}]
+  ELSE IF LatestStamp(g, s, t, r) > ts \/ (\E e \in VersOf(g, s, t, r) : e.d = ts) THEN g
+  ELSE RemoveEdge(g, s, t, r, hard, ts)
+RLinkG(g, s, t, r, inv, w, p, ts) ==
+  LET g1 == RAddEdge(g, s, t, r, w, p, ts) IN
+  IF inv = Nil THEN g1 ELSE RAddEdge(g1, t, s, inv, w, p, ts)
+RUnlinkG(g, s, t, r, inv, hard, ts) ==
+  LET g1 == RRemoveEdge(g, s, t, r, hard, ts) IN
+  IF inv = Nil THEN g1 ELSE RRemoveEdge(g1, t, s, inv, hard, ts)
+\* the cascade of a replayed VDEL: every edge currently active to or from x goes through the guarded soft removal
+RCascade(g, x, ts) ==
+  LET act == SetToSeq({e \in g.out : e.d = 0 /\ (e.s = x \/ e.t = x)}) IN
+  FoldLeft(LAMBDA gg, e : RRemoveEdge(gg, e.s, e.t, e.r, FALSE, ts), g, act)
+
 (***************************************************************************)
 (* Recovery: Load(snapshot) then the fold replayAOF performs.              *)
 (*                                                                         *)
@@ -278,7 +304,7 @@ RStep(rs, c) ==
          LET rs1 == IF rs.agg[c.n].present
                     THEN [rs EXCEPT !.agg[c.n].ent[c.id] = <<>>, !.agg[c.n].del = @ \cup {c.id}]
                     ELSE rs
-         IN [rs1 EXCEPT !.g = Cascade(@, GId(c.n, c.id), c.ts)]
+         IN [rs1 EXCEPT !.g = RCascade(@, GId(c.n, c.id), c.ts)]
     [] c.c = "VCONFIG" ->
          IF rs.agg[c.n].present THEN [rs EXCEPT !.agg[c.n].maint = c.mc, !.agg[c.n].maintSet = TRUE] ELSE rs
     [] c.c = "VAUTOLINKS" ->
@@ -286,8 +312,8 @@ RStep(rs, c) ==
     [] c.c = "VCOMPRESS" ->
          IF rs.agg[c.n].present THEN [rs EXCEPT !.agg[c.n].prec = c.p] ELSE rs
     [] c.c = "GVACUUM" -> [rs EXCEPT !.g = VacuumG(@, c.cutoff)]
-    [] c.c = "GLINK" -> [rs EXCEPT !.g = LinkG(@, c.s, c.t, c.r, c.inv, c.w, c.p, c.ts)]
-    [] c.c = "GUNLINK" -> [rs EXCEPT !.g = UnlinkG(@, c.s, c.t, c.r, c.inv, c.hard, c.ts)]
+    [] c.c = "GLINK" -> [rs EXCEPT !.g = RLinkG(@, c.s, c.t, c.r, c.inv, c.w, c.p, c.ts)]
+    [] c.c = "GUNLINK" -> [rs EXCEPT !.g = RUnlinkG(@, c.s, c.t, c.r, c.inv, c.hard, c.ts)]
     [] OTHER -> rs
 
 \* apply the aggregation of one index to the index restored from the snapshot (or to a fresh one)
